@@ -265,3 +265,39 @@ Section E2E_TOPK.
     - eapply nonneg_perm; [exact Hperm|]. now apply base_nonneg.
   Qed.
 End E2E_TOPK.
+
+
+(* ---------- a vector aggregation without grouping clause ---------- *)
+Lemma metric_ref_def_grouped_proof to_float quantile_o varpop stddevpop s c es :
+  agg_grouped s = true ->
+  metric_ref_def to_float quantile_o varpop stddevpop s c es = metric_ref to_float quantile_o varpop stddevpop s c es.
+Proof.
+  destruct s as [q|l|a|t|q|]; try reflexivity. unfold agg_grouped. intros H.
+  unfold metric_ref_def, metric_ref, ref_aggop_def, ref_aggop, ref_agg_def, ref_agg, grouping.
+  destruct (agg_suffix a) as [b|]; [reflexivity|]. destruct (agg_prefix a) as [b|]; [reflexivity|discriminate].
+Qed.
+
+(* sum(rate({a="b"}[5s])) over the streams {a="b",c="1"} and {a="b",c="2"}, one line each in one window: the SQL side (and
+   metric_ref, which follows the code) reports the two streams with 0.2 each; the definition one series {} with 0.4 *)
+Definition ng_sel : strsel := {| sel_matchers := [{| m_name := "a"; m_op := MEq; m_val := "b" |}]%string; sel_pipeline := [] |}.
+Definition ng_script : script :=
+  SAgg {| agg_f := ASum; agg_prefix := None;
+          agg_lra := {| lra_f := FRate; lra_prefix := None; lra_sel := ng_sel; lra_dur_ns := 5000000000; lra_suffix := None; lra_cmp := None |};
+          agg_suffix := None; agg_cmp := None |}.
+Theorem agg_without_grouping_refuted_proof :
+  forall re_match parse_float json_get hash_labels fp to_float quantile_o varpop stddevpop,
+  exists p, plan_metric ng_script true = Some p /\ analyze_m15 ng_script = false /\ script_ok ng_script /\
+    db_ok dk_ctx dk_db /\ fp_of_labels_ok dk_db /\ agg_grouped ng_script = false /\
+    option_map (map (fun r => (v_labels r, v_ts r, this (v_val r))))
+      (option_map (map strip) (sem fp to_float quantile_o varpop stddevpop p dk_ctx (base_of re_match parse_float json_get hash_labels ng_script dk_ctx dk_db)))
+      = Some [([("a", "b"); ("c", "1")]%string, 1700000000000000000, (1 # 5)%Q); ([("a", "b"); ("c", "2")]%string, 1700000000000000000, (1 # 5)%Q)] /\
+    option_map (map (fun r => (v_labels r, v_ts r, this (v_val r))))
+      (metric_ref_def to_float quantile_o varpop stddevpop ng_script dk_ctx
+         (map entry_of_out (log_lines re_match parse_float json_get hash_labels ng_script dk_ctx dk_db)))
+      = Some [([], 1700000000000000000, (2 # 5)%Q)].
+Proof.
+  intros. eexists. split; [reflexivity|]. split; [reflexivity|]. split; [cbv; reflexivity|].
+  split; [apply dk_db_ok|]. split; [apply dk_db_ok|]. split; [reflexivity|]. split; vm_compute; reflexivity.
+Qed.
+Example vector_aggregation_partial_hyp : agg_grouped ex_script = true /\ agg_grouped dk_script = true.
+Proof. split; reflexivity. Qed.
